@@ -473,16 +473,106 @@ theorem inputs_total (ty s : Str) : Inputs.parseValue ty s = none ∨ ∃ v, Inp
   | none => exact Or.inl rfl
   | some v => exact Or.inr ⟨v, rfl⟩
 
+/-! ### The domain on which the total model is faithful: `ParserShapedDoc` -/
+
+/-- The attributes the state pseudo-classes read (`:in-range`/`:out-of-range`, `:dir()`,
+    `:lang()`, `:default`, `:indeterminate`, `:placeholder-shown`, and the `<meta>` language
+    search). -/
+def stateAttrs : List String :=
+  ["type", "min", "max", "value", "dir", "lang", "xml:lang", "name", "http-equiv", "content", "placeholder"]
+
+/-- `a` is one of them under ANY of the key comparisons the matcher uses (exact, lower-cased, or
+    the local name of a namespaced key for `xml:lang`). -/
+def isStateAttr (a : Attr) : Bool :=
+  stateAttrs.any (fun n => n.toStr == lower a.key) ||
+    (match a.kname with
+     | some nm => lower nm == "lang".toStr
+     | none => false)
+
+/-- No state attribute of the element holds a sequence. -/
+def ElemShaped (e : Elem) : Prop := ∀ a ∈ e.attrs, isStateAttr a = true → isSeq a.val = false
+
+mutual
+/-- All elements of a tree (the node itself included). -/
+def allElems : Node → List Elem
+  | .elem e kids => e :: allElemsKids kids
+  | .str _ _ => []
+def allElemsKids : List Node → List Elem
+  | [] => []
+  | k :: ks => allElems k ++ allElemsKids ks
+end
+
+/-- Every element of the tree is parser-shaped for the whole state-attribute set.  This is the
+    domain of faithfulness of the total model (`Model/Match.lean`): the harness generates list
+    values only for attributes OUTSIDE `stateAttrs`. -/
+def ParserShapedDoc (n : Node) : Prop := ∀ e ∈ allElems n, ElemShaped e
+
+theorem stateAttrs_lower : ∀ n ∈ stateAttrs, lower n.toStr = n.toStr := by decide
+
+theorem elemShaped_for (c : Ctx) (e : Elem) (h : ElemShaped e) : ParserShapedFor stateAttrs c e := by
+  intro a ha n hn hk
+  apply h a ha
+  unfold isStateAttr
+  rw [Bool.or_eq_true]
+  left
+  rw [List.any_eq_true]
+  refine ⟨n, hn, ?_⟩
+  unfold keyIs at hk
+  split at hk
+  · have : a.key = n.toStr := by simpa using hk
+    rw [this, stateAttrs_lower n hn]; simp
+  · have : lower a.key = n.toStr := by simpa using hk
+    rw [this]; simp
+
+theorem parserShapedFor_mono {names names' : List String} {c : Ctx} {e : Elem}
+    (hsub : ∀ n ∈ names', n ∈ names) (h : ParserShapedFor names c e) : ParserShapedFor names' c e :=
+  fun a ha n hn hk => h a ha n (hsub n hn) hk
+
+theorem elemShaped_parserShaped (c : Ctx) (e : Elem) (h : ElemShaped e) : ParserShaped c e :=
+  parserShapedFor_mono (by decide) (elemShaped_for c e h)
+
+/-- On a parser-shaped document `match_range` never raises, on any element, in any context. -/
+theorem doc_range_total (n : Node) (hd : ParserShapedDoc n) (c : Ctx) (e : Elem) (he : e ∈ allElems n)
+    (cond : Nat) : ∃ b, matchRangeE c e cond = .ok b :=
+  range_total c e cond (elemShaped_parserShaped c e (hd e he))
+
+/-- On a parser-shaped document no attribute read by name ever sees a list, for every name of
+    `stateAttrs` (so every `.list _` branch on such a read in the model is dead code there). -/
+theorem doc_attr_not_list (n : Node) (hd : ParserShapedDoc n) (c : Ctx) (e : Elem) (he : e ∈ allElems n)
+    (name : String) (hn : name ∈ stateAttrs) (l : List Str) :
+    c.attrByName e name.toStr ≠ some (.list l) :=
+  attrByName_not_list (elemShaped_for c e (hd e he)) hn l
+
 /-- Every function of `Model/Match.lean` other than the three `…E` leaves is a total Lean
     function into `Bool` / `Option` / `List` (this statement is trivially true for that reason:
     `matchList` — hence `matchEl`, `select`, `closest`, `filter` — returns a value on every context,
-    location and selector list).  Their Python counterparts use only total operations on values of
-    the shapes of `ParserShapedFor` for the names they read (`dir`, `lang`, `type`, `name`,
-    `http-equiv`, `content`, `value`, `checked`): dictionary iteration, `==`, `in`, slicing-free
-    loops over `contents`/`descendants`, `.parent` walks that stop at `None`.  Outside those shapes
-    (a list-valued `dir`, `lang`, …) the model's `.list _` branches are conventions and CPython
-    raises — see the scope note at the top of this file.  Exception-freedom of the real code on
-    generated trees is checked by the harness, not here. -/
+    location and selector list).
+
+    DOMAIN OF FAITHFULNESS.  On `ParserShapedDoc` trees the Python counterparts use only total
+    operations (dictionary iteration, `==`, `in`, loops over `contents`/`descendants`, `.parent`
+    walks that stop at `None`, `util.lower`/`RE.match`/`.lower()`/`unicodedata.bidirectional(c)`
+    on strings and single characters).  OUTSIDE that domain the model's `.list _` branches are
+    conventions and CPython raises instead (all reproduced with
+    `BeautifulSoup(..., 'html.parser', multi_valued_attributes={'*': [attr]})`):
+
+    | attribute (list-valued)     | selector                      | Python                                  | model branch                         |
+    |-----------------------------|-------------------------------|-----------------------------------------|--------------------------------------|
+    | `type`                      | `:in-range`/`:out-of-range`   | `TypeError` (unhashable list)           | `lowerE` → `.error .typeError` (faithful) |
+    | `min`/`max`/`value`, range type | `:in-range`/`:out-of-range` | `TypeError` (expected string)         | `parseValueE` → `.error .typeError` (faithful) |
+    | `dir`                       | `:dir(ltr)`                   | `TypeError` (unhashable list)           | `matchDirWalk`/`findBidiKids`: `.list _ => none` |
+    | `type` with `dir=auto`      | `:dir(ltr)` on `input`        | `TypeError` (unhashable list)           | `matchDirWalk`: `.list _ => []`      |
+    | `value` with `dir=auto`     | `:dir(ltr)` on `input type=text` | `TypeError` (`bidirectional()` of a str) | `matchDirWalk`: `.list _ => []`   |
+    | `type` of an `input`        | `:indeterminate`              | `TypeError` (unhashable list)           | `radioCheckedScan`: `.list _ => false` |
+    | `type` of `input`/`button`  | `:default` (non-empty list)   | `TypeError` (unhashable list)           | `firstSubmit`: `.list _ =>` skip     |
+    | `lang` / `xml:lang`         | `:lang(en)`                   | `AttributeError` (`list.lower`)         | `matchLang`: joined with spaces      |
+    | `http-equiv` of a `meta`    | `p:lang(en)` (meta fallback)  | `TypeError` (unhashable list)           | `metaLangScan`: `.list _ => false`   |
+    | `content` of a `meta`       | `p:lang(en)` (meta fallback)  | `AttributeError` (`list.lower`)         | `matchLang`: joined with spaces      |
+
+    `name` (compared with `==`) and `placeholder` (only tested for presence by an attribute
+    selector) are total in Python for lists too; they are in `stateAttrs` only to keep the domain
+    simple.  No stock parser stores a list for any attribute of `stateAttrs`; a builder with a
+    custom `multi_valued_attributes` can.  Exception-freedom of the real code on generated trees
+    is checked by the harness, not here. -/
 theorem matcher_total_note (c : Ctx) (l : Loc) (e : Elem) (sel : SelList) :
     ∃ b : Bool, matchList c l e sel = b := ⟨_, rfl⟩
 
